@@ -366,6 +366,38 @@ def bounded(tier, seed):
                 return 'constant field not reproduced'
             return None
         run.case('C17:interpDimension with an N-d coordinate variable (%s)' % label, label, t4)
+    # extrapolate=True reaches the per-column weights as well: targets beyond the ends of a column continue the end segment
+    # (same law as with a 1-D coordinate: a linear profile is reproduced beyond the ends)
+    fr_out = np.array([-.3, .2, .7, 1.25])[None, :, None, None]
+    for label, sz, tz in (('source varies', src_var, (7. * fr_out + np.zeros(shp_t)) * (1 + terrain)), ('source fixed', src_fix, 7. * fr_out + np.zeros(shp_t)),
+                          ('decreasing', 1000. - 100 * src_fix, 1000. - 700 * fr_out + np.zeros(shp_t))):
+        def t5(sz=sz, tz=tz):
+            dk4 = ('time', 'layer', 'latitude', 'longitude')
+
+            def mk(z):
+                f = P.PseudoNetCDFFile()
+                for dk, dl in zip(dk4, z.shape):
+                    f.createDimension(dk, dl)
+                f.createVariable('z', 'd', dk4, values=z.copy())
+                return f
+            f = mk(sz)
+            f.createVariable('lin', 'd', dk4, values=slope * sz + icpt)
+            out = f.interpDimension('layer', mk(tz).variables['z'], coordkey='z', extrapolate=True)
+            got, want = np.ma.filled(out.variables['lin'][:], np.nan), slope * tz + icpt
+            if not np.allclose(got, want, rtol=1e-9, atol=1e-9):
+                bad = np.argwhere(~np.isclose(got, want, rtol=1e-9, atol=1e-9))[0]
+                return 'extrapolate=True: linear profile not continued beyond the ends of column %r (got %r, want %r)' % (
+                    tuple(int(x) for x in bad), float(got[tuple(bad)]), float(want[tuple(bad)]))
+            # the same request with a 1-D coordinate (reference behaviour of the option)
+            g = P.PseudoNetCDFFile()
+            g.createDimension('layer', 5)
+            g.createVariable('layer', 'd', ('layer',), values=sz[0, :, 0, 0].copy())
+            g.createVariable('lin', 'd', ('layer',), values=2 * sz[0, :, 0, 0] - 1)
+            o1 = g.interpDimension('layer', tz[0, :, 0, 0].copy(), extrapolate=True)
+            if not np.allclose(np.ma.filled(o1.variables['lin'][:], np.nan), 2 * tz[0, :, 0, 0] - 1, rtol=1e-9, atol=1e-9):
+                return 'extrapolate=True with a 1-D coordinate: linear profile not continued beyond the ends'
+            return None
+        run.case('C17:interpDimension with an N-d coordinate variable, extrapolate=True (%s)' % label, label, t5)
     return run.result(
         rule='real getinterpweights (non-negative inside, columns sum to 1, linear profiles exact, identity), sigma2coeff vs independent overlap fractions, interpSigma conserve (column integral, constant field) '
              'and linear, interpDimension along every coordinate dimension; tolerance 1e-5 relative (float32 level edges)',
